@@ -71,7 +71,9 @@ class Run:
         return True
 
     def finish(self, exhaustive=None, extra=None):
-        os.makedirs(EVID, exist_ok=True)
+        # evidence/ holds the listed properties only; additional checks (X..) write next to it
+        evid = EVID if self.pid.startswith("C") else os.path.join(VERIF, "extra")
+        os.makedirs(evid, exist_ok=True)
         cov = self.cov
         if exhaustive is not None:
             cov["exhaustive"] = bool(exhaustive)
@@ -80,7 +82,7 @@ class Run:
         ev = {"property_id": self.pid, "tier": self.tier, "seed": seed(), "level": self.level,
               "coverage": cov, "assumptions": self.assumptions, "wall_s": round(time.time() - self.t0, 2),
               "violations": len(self.violations), "known_findings_hit": [k for k, _ in self.known]}
-        with open(os.path.join(EVID, self.pid + ".json"), "w") as f:
+        with open(os.path.join(evid, self.pid + ".json"), "w") as f:
             json.dump(ev, f, indent=1, default=str)
         for k, what in self.known:
             print("KNOWN-FINDING: property=%s %s" % (self.pid, what))
